@@ -484,6 +484,16 @@ theorem releasedState_setVer (s : St) (id v : Nat) :
   show (if isUsed s id = true then _ else _) = _
   split <;> rfl
 
+theorem releasedStateP_setVer (s : St) (id v : Nat) :
+    releasedStateP { s with ver := v } id = { releasedStateP s id with ver := v } := by
+  unfold releasedStateP
+  show (if isUsed s id = true then _ else _) = _
+  split
+  · rw [releasedState_setVer]
+    unfold abandonExchange
+    simp only []
+    split <;> rfl
+  · rfl
 macro "fin2" : tactic =>
   `(tactic| (refine ⟨?_, ?_⟩ <;> first | trivial | rfl))
 
@@ -498,7 +508,7 @@ theorem step_setVer (cfg : Cfg) (s : St) (v : Nat) (op : Op) (h : VerFreeOp s op
   | register id => fin2
   | restoreHandled ids => fin2
   | release id =>
-    simp only [step, releasePacketId, releaseIfUsed_eq, releasedState_setVer]
+    simp only [step, releasePacketId_eqP, releasedStateP_setVer]
     fin2
   | setInterval d =>
     simp only [step, setPingreqSendInterval]
